@@ -43,18 +43,21 @@ AFTER = {"refit_good", "refit_bad", "transform_not_dataframe", "transform_missin
 
 
 def strategy(tier):
-    return st.tuples(
-        fitted_case(CLASSES, dev_modes=("none", "same", "perturbed")),
-        st.sampled_from(KINDS),
-        st.integers(0, 10**6),
-        st.integers(0, 5),
-    ).map(lambda t: dict(t[0], malform={"kind": t[1], "pos": t[2], "variant": t[3]}))
+    @st.composite
+    def build_case(draw):
+        case = draw(fitted_case(CLASSES, dev_modes=("none", "same", "perturbed")))
+        # the malformation is drawn among those the class validates (construction, not rejection)
+        kinds = [k for k in KINDS if applicable(k, case["config"]["cls"], case, None)]
+        case["malform"] = {"kind": draw(st.sampled_from(kinds)), "pos": draw(st.integers(0, 10**6)), "variant": draw(st.integers(0, 5))}
+        return case
+
+    return build_case()
 
 
 def applicable(kind, cls, case, sample):
     quant, cat, ordi, _ = feature_lists(case)
     carver = cls in CARVERS
-    has_dev = sample.X_dev is not None
+    has_dev = (sample.X_dev is not None) if sample is not None else bool(case.get("dev_blocks"))
     if kind in ("y_nan", "y_index_permuted", "y_index_shifted", "y_length", "y_not_series"):
         return True
     if kind == "y_classes":
@@ -302,3 +305,114 @@ def check_case(case) -> Outcome:
     res = call_fit(made.value, cls, X, y, Xd, yd, has_dev)
     expect_assertion(res, f"fit with malformation {kind} (variant {variant})")
     return out
+
+
+# ----------------------------------------------------------------------------- exhaustive matrix
+def _fixed_case(cls):
+    """A small valid sample with 2 quantitative (one with missing values), 1 categorical and 1 ordinal
+    feature and an identical dev sample; target matching the class."""
+    from gen.objects import KINDS as CLASS_KINDS, target_kinds_for
+
+    tkind = target_kinds_for(cls)[0]
+    if tkind == "binary":
+        target = {"kind": "binary", "levels": [0, 1], "blocks": [30, 30]}
+    elif tkind == "continuous":
+        target = {"kind": "continuous", "levels": [0, 1, 2, 3], "blocks": [15, 15, 15, 15]}
+    else:
+        target = {"kind": "multiclass", "levels": [0, 1, 2], "blocks": [20, 20, 20]}
+    nl = len(target["blocks"])
+    b = target["blocks"][0]
+
+    def table(rows):
+        return [list(r) for r in (rows * nl)[:nl]]
+
+    def skew(base, nmod):
+        out = []
+        for lv in range(nl):
+            row = list(base)
+            row[lv % nmod], row[(lv + 1) % nmod] = row[(lv + 1) % nmod] + 2, max(0, row[lv % nmod] - 2)
+            row[-1] = base[-1]
+            diff = b - sum(row)
+            row[0] += diff
+            out.append(row)
+        return out
+
+    feats = []
+    allowed = CLASS_KINDS[cls]
+    if "continuous" in allowed or "discrete" in allowed:
+        n0 = b // 5
+        feats.append({"name": "q0", "kind": "discrete", "pool": "small_int", "values": [1, 2, 3, 4, 5], "train": skew([n0] * 5 + [0], 5), "dev": None})
+        n1 = (b - 4) // 4
+        feats.append({"name": "q1", "kind": "discrete", "pool": "small_int", "values": [10, 20, 30, 40], "train": skew([n1] * 4 + [4], 4), "dev": None})
+    if "categorical" in allowed:
+        n2 = b // 3
+        feats.append({"name": "c2", "kind": "categorical", "flavour": "str", "values": ["A", "B", "c"], "train": skew([n2] * 3 + [0], 3), "dev": None})
+    if "ordinal" in allowed:
+        n3 = b // 3
+        feats.append({"name": "o3", "kind": "ordinal", "values": ["low", "mid", "high"], "ranking": ["low", "mid", "high"], "train": skew([n3] * 3 + [0], 3), "dev": None})
+    for f in feats:
+        for row in f["train"]:
+            assert sum(row) == b and min(row) >= 0, (f["name"], row)
+        f["dev"] = [list(r) for r in f["train"]]
+    cfg = {"cls": cls, "min_freq": 0.1, "copy": True, "n_jobs": 1}
+    if cls in CARVERS:
+        cfg.update({"min_freq_mod": None, "max_n_mod": 4, "dropna": True, "output_dtype": "float", "sort_by": "kruskal" if cls == "ContinuousCarver" else "cramerv"})
+    return {"target": target, "dev_blocks": list(target["blocks"]) if cls in CARVERS else None, "features": feats, "key": 5, "index": "offset", "config": cfg}
+
+
+def _matrix_for_class(args):
+    cls, positions = args
+    from core.findings import Findings
+    from core.outcome import case_hash
+    from gen.samples import build as build_sample
+
+    findings = Findings()
+    evaluations, nontrivial, violations, known, classes = 0, set(), [], {}, {}
+    base = _fixed_case(cls)
+    if cls not in CARVERS:
+        for f in base["features"]:
+            f["dev"] = None
+    sample = build_sample(base)
+    for kind in KINDS:
+        if not applicable(kind, cls, base, sample):
+            continue
+        for variant in range(6):
+            for pos in positions:
+                case = dict(base, malform={"kind": kind, "pos": pos, "variant": variant})
+                outcome = check_case(case)
+                evaluations += 1
+                classes[f"matrix:{kind}"] = classes.get(f"matrix:{kind}", 0) + 1
+                if outcome.status == "discard":
+                    classes[f"matrix-discard:{outcome.signature}"] = classes.get(f"matrix-discard:{outcome.signature}", 0) + 1
+                    continue
+                if outcome.nontrivial:
+                    nontrivial.add(case_hash(case))
+                for sig, msg in outcome.all_violations():
+                    if findings.match_open(PID, sig):
+                        known[sig] = known.get(sig, 0) + 1
+                    elif not any(v[0] == sig for v in violations):
+                        violations.append((sig, f"[matrix {cls}] {msg}", case))
+    return evaluations, nontrivial, violations, known, classes
+
+
+def extra_run(tier, seed_value, findings):
+    """Every malformation kind x variant 0..5 x positions for every class on a fixed valid sample."""
+    import multiprocessing
+
+    positions = (0, 23) if tier == "quick" else (0, 7, 23, 41)
+    jobs = [(cls, positions) for cls in sorted(set(CLASSES))]
+    with multiprocessing.get_context("fork").Pool(len(jobs)) as pool:
+        results = pool.map(_matrix_for_class, jobs)
+    evaluations, nontrivial, violations, known, classes = 0, set(), [], {}, {}
+    for ev, nt, vio, kn, cl in results:
+        evaluations += ev
+        nontrivial |= nt
+        for v in vio:
+            if not any(w[0] == v[0] for w in violations):
+                violations.append(v)
+        for k, c in kn.items():
+            known[k] = known.get(k, 0) + c
+        for k, c in cl.items():
+            classes[k] = classes.get(k, 0) + c
+    return {"evaluations": evaluations, "nontrivial": nontrivial, "violations": violations, "known_hits": known, "classes": classes,
+            "coverage": {"matrix_cells": evaluations, "matrix_note": "malformation kind x variant x position x class on a fixed valid sample, enumerated completely"}}
